@@ -26,7 +26,7 @@ def run(ctx):
     design = [("Mirror_c09.cfg", {"MaxSteps": 3 if q else 4}, "C09_NoPanic over the wide message universe")]
     cov, mismatches, inconcl = mirrorcheck.collect(ctx, {"C09"}, plans, design_cfgs=design, report_deaths=True)
     extra = {}
-    if os.path.exists(os.path.join(vlib.VERIF, "checks", "c09_config.py")):
+    if os.path.exists(os.path.join(vlib.VERIF, "checks", "c09_config.py")) and mirrorcheck.replay_stored(ctx) is None:
         c09_config = importlib.import_module("c09_config")
         extra = c09_config.collect(ctx) or {}
     cov["configuration_and_mappers"] = extra
